@@ -45,6 +45,13 @@ where
 {
     h: DaemonH<V, B>,
     kick: OwnedFd,
+    /// two-ring scenarios: ring 0's descriptor, kicked once by actor K0 (not the observed ring)
+    kick_other: Option<OwnedFd>,
+    k0_done: bool,
+    /// event id of the observed ring and the name of its handler-entry point
+    ring: u16,
+    site: &'static str,
+    seen_dispatches: usize,
     script: Vec<EStep>,
     e_pos: usize,
     k_pos: usize,
@@ -62,17 +69,19 @@ where
 }
 
 fn script(kind: &str) -> Vec<EStep> {
-    match kind {
+    // the "2r-" scenarios run on two rings of one worker and act on ring 1
+    let r: u32 = if kind.starts_with("2r-") { 1 } else { 0 };
+    match kind.trim_start_matches("2r-") {
         "disable-enable" => vec![
-            EStep::Send(SET_VRING_ENABLE, p_vring_state(0, 0), false, Effect::Deactivate, "ENABLE(0)"),
+            EStep::Send(SET_VRING_ENABLE, p_vring_state(r, 0), false, Effect::Deactivate, "ENABLE(0)"),
             EStep::Recv,
-            EStep::Send(SET_VRING_ENABLE, p_vring_state(0, 1), false, Effect::Activate, "ENABLE(1)"),
+            EStep::Send(SET_VRING_ENABLE, p_vring_state(r, 1), false, Effect::Activate, "ENABLE(1)"),
             EStep::Recv,
         ],
         "stop-restart" => vec![
-            EStep::Send(GET_VRING_BASE, p_vring_state(0, 0), false, Effect::Deactivate, "GET_VRING_BASE"),
+            EStep::Send(GET_VRING_BASE, p_vring_state(r, 0), false, Effect::Deactivate, "GET_VRING_BASE"),
             EStep::Recv,
-            EStep::Send(SET_VRING_KICK, p_u64(0), true, Effect::Activate, "SET_VRING_KICK"),
+            EStep::Send(SET_VRING_KICK, p_u64(r as u64), true, Effect::Activate, "SET_VRING_KICK"),
             EStep::Recv,
         ],
         "reset-enable" => vec![
@@ -80,10 +89,10 @@ fn script(kind: &str) -> Vec<EStep> {
             EStep::Recv,
             EStep::Send(SET_FEATURES, p_u64(VIRTIO_F_PROTOCOL_FEATURES | 0x3), false, Effect::None, "SET_FEATURES"),
             EStep::Recv,
-            EStep::Send(SET_VRING_ENABLE, p_vring_state(0, 1), false, Effect::Activate, "ENABLE(1)"),
+            EStep::Send(SET_VRING_ENABLE, p_vring_state(r, 1), false, Effect::Activate, "ENABLE(1)"),
             EStep::Recv,
         ],
-        "disable-only" => vec![EStep::Send(SET_VRING_ENABLE, p_vring_state(0, 0), false, Effect::Deactivate, "ENABLE(0)"), EStep::Recv],
+        "disable-only" => vec![EStep::Send(SET_VRING_ENABLE, p_vring_state(r, 0), false, Effect::Deactivate, "ENABLE(0)"), EStep::Recv],
         _ => vec![],
     }
 }
@@ -106,10 +115,12 @@ where
     }
 
     fn setup(&self, x: &mut Exec) -> Result<Self::S, String> {
-        let cfg = Cfg { num_queues: 1, masks: vec![0b1], ..Default::default() };
+        let two = self.0.kind.starts_with("2r-");
+        let cfg = if two { Cfg { num_queues: 2, masks: vec![0b11], ..Default::default() } } else { Cfg { num_queues: 1, masks: vec![0b1], ..Default::default() } };
         let mut h = DaemonH::<V, B>::new(cfg);
         let kick = eventfd(0, true);
-        let mut sync = |h: &mut DaemonH<V, B>, code: u32, payload: Vec<u8>, fds: Vec<i32>, x: &mut Exec| -> Result<(), String> {
+        let kick_other = if two { Some(eventfd(0, true)) } else { None };
+        let sync = |h: &mut DaemonH<V, B>, code: u32, payload: Vec<u8>, fds: Vec<i32>, x: &mut Exec| -> Result<(), String> {
             h.send(code, F_VERSION | F_NEED_REPLY, &payload, &fds);
             x.run_quiet()?;
             match h.try_recv_msg() {
@@ -123,10 +134,16 @@ where
         sync(&mut h, SET_PROTOCOL_FEATURES, p_u64(PF_REPLY_ACK | PF_RESET_DEVICE | PF_MQ), vec![], x)?;
         h.reply_ack = true;
         sync(&mut h, SET_FEATURES, p_u64(VIRTIO_F_PROTOCOL_FEATURES | 0x3), vec![], x)?;
-        sync(&mut h, SET_VRING_KICK, p_u64(0), vec![kick.as_raw_fd()], x)?;
-        sync(&mut h, SET_VRING_ENABLE, p_vring_state(0, 1), vec![], x)?;
+        let ring: u16 = if two { 1 } else { 0 };
+        if let Some(k0) = &kick_other {
+            sync(&mut h, SET_VRING_KICK, p_u64(0), vec![k0.as_raw_fd()], x)?;
+            sync(&mut h, SET_VRING_ENABLE, p_vring_state(0, 1), vec![], x)?;
+        }
+        sync(&mut h, SET_VRING_KICK, p_u64(ring as u64), vec![kick.as_raw_fd()], x)?;
+        sync(&mut h, SET_VRING_ENABLE, p_vring_state(ring as u32, 1), vec![], x)?;
         h.be.take_dispatches();
-        Ok(St { h, kick, script: script(self.0.kind), e_pos: 0, k_pos: 0, kicks: self.0.kicks, sent: vec![], replies_sent: 0, confirmed_inactive: false, worker_had_decided: false, dispatches_before: 0, dispatches_valid_after_last_kick: 0, last_kick_seen: false, post_stop: 0, post_stop_after_last_kick: 0 })
+        let site = if two { "handle_event#1" } else { "handle_event" };
+        Ok(St { h, kick, kick_other, k0_done: false, ring, site, seen_dispatches: 0, script: script(self.0.kind), e_pos: 0, k_pos: 0, kicks: self.0.kicks, sent: vec![], replies_sent: 0, confirmed_inactive: false, worker_had_decided: false, dispatches_before: 0, dispatches_valid_after_last_kick: 0, last_kick_seen: false, post_stop: 0, post_stop_after_last_kick: 0 })
     }
 
     fn env_names(&self) -> Vec<String> {
@@ -175,6 +192,13 @@ where
         } else {
             s.k_pos += 1;
             let one: u64 = 1;
+            // two-ring scenarios: the guest kicks the other ring first, in the same step, so that the
+            // worker finds both events in one epoll batch and handles the observed ring's second
+            if let (Some(k0), false) = (&s.kick_other, s.k0_done) {
+                s.k0_done = true;
+                // SAFETY: write to our own eventfd.
+                unsafe { libc::write(k0.as_raw_fd(), &one as *const u64 as *const libc::c_void, 8) };
+            }
             // SAFETY: write to our own eventfd.
             unsafe { libc::write(s.kick.as_raw_fd(), &one as *const u64 as *const libc::c_void, 8) };
             if s.k_pos == s.kicks {
@@ -198,13 +222,13 @@ where
                         s.confirmed_inactive = true;
                         // was the worker already past the library's enabled-check at that time?
                         let snap = x.ctl.snapshot();
-                        s.worker_had_decided = snap.iter().any(|p| p.0.starts_with("vring_worker") && p.2 == Some(Point::User("handle_event")));
+                        s.worker_had_decided = snap.iter().any(|p| p.0.starts_with("vring_worker") && p.2 == Some(Point::User(s.site)));
                     }
                 }
             }
             if name.starts_with("vring_worker") {
-                if let Some(Point::User("handle_event")) = info.point {
-                    // the backend's handler is entered now
+                if info.point == Some(Point::User(s.site)) {
+                    // the backend's handler is entered now for the observed ring
                     if s.confirmed_inactive {
                         s.post_stop += 1;
                         if s.last_kick_seen {
@@ -238,7 +262,7 @@ where
             x.violation("C12:panic", &format!("{panics:?}"));
         }
         if !x.spinners.is_empty() {
-            x.violation(&format!("C12:{}:worker-spins", self.0.kind), &format!("nothing but a busy-looping worker is left runnable: {:?}", x.spinners));
+            x.violation(&format!("C12:{}:worker-spins", self.0.kind.trim_start_matches("2r-")), &format!("nothing but a busy-looping worker is left runnable: {:?}", x.spinners));
         }
         // script complete?
         if s.e_pos < s.script.len() {
@@ -266,7 +290,7 @@ where
 }
 
 fn outcome(r: &RunResult) -> String {
-    let d = r.trace.iter().filter(|t| t.ends_with(":handle_event")).count();
+    let d = r.trace.iter().filter(|t| t.contains(":handle_event")).count();
     format!("dispatches={d},violations={}", r.violations.len())
 }
 
@@ -298,6 +322,11 @@ pub fn run(rep: &mut Report) {
         run_one(rep, Sc12 { kind, kicks: 1, mutex: false }, bound, per);
     }
     run_one(rep, Sc12 { kind: "disable-enable", kicks: 1, mutex: true }, if thorough { 2 } else { 1 }, per);
+    // two rings on one worker: the observed ring's event can sit unread in an epoll batch while the
+    // worker is inside the other ring's handler
+    for kind in ["2r-disable-enable", "2r-stop-restart", "2r-reset-enable"] {
+        run_one(rep, Sc12 { kind, kicks: 1, mutex: false }, if thorough { 3 } else { 2 }, per);
+    }
     if thorough {
         run_one(rep, Sc12 { kind: "disable-enable", kicks: 2, mutex: false }, 2, per);
         run_one(rep, Sc12 { kind: "stop-restart", kicks: 2, mutex: false }, 2, per);
@@ -318,6 +347,9 @@ pub fn replay(case: &Value, rep: &mut Report) {
         Some(&"stop-restart") => "stop-restart",
         Some(&"reset-enable") => "reset-enable",
         Some(&"disable-only") => "disable-only",
+        Some(&"2r-disable-enable") => "2r-disable-enable",
+        Some(&"2r-stop-restart") => "2r-stop-restart",
+        Some(&"2r-reset-enable") => "2r-reset-enable",
         _ => "disable-enable",
     };
     let sc = Sc12 { kind, kicks, mutex };
